@@ -68,30 +68,44 @@ Theorem C20_no_false_positive_xls_real :
 Proof. exact no_filepass_no_password_real. Qed.
 
 (* ------------------------------------------------------------------ xlsx / xlsb *)
-(* THROUGH THE BYTES, ANY LAYOUT: for every container with an object named EncryptedPackage (any
-   content and size, any other streams and storages) and every valid physical layout of it, the
-   model of check_for_password_protected run on the written file answers Password, and
-   Xlsx::new / Xlsb::new return it without opening the zip.  (Composition with
-   C13_written_names_listed; fuel: 1 + number of DIFAT sectors, or anything above.) *)
+(* Cfb::has_directory("EncryptedPackage") asks the ROOT storage since the fix of audit finding G8
+   (compound-file names are unique per storage only: src/cfb.rs Cfb::find follows the child /
+   sibling ids); a file that carries no hierarchy (root child id NOSTREAM) is scanned as a flat
+   array, as every file was before.
+   THROUGH THE BYTES, ANY LAYOUT: for every container whose root storage holds an object named
+   EncryptedPackage (any content and size, any other streams and storages, any hierarchy) and every
+   valid physical layout of it whose links are a tree over the hierarchy, the model of
+   check_for_password_protected run on the written file answers Password, and Xlsx::new /
+   Xlsb::new return it without opening the zip.  (Composition with C13_has_directory_root; fuel:
+   1 + number of DIFAT sectors, or anything above.) *)
 Theorem C20_encrypted_ooxml_is_password_any_layout :
   forall (c : container) (l : layout) (fuel : nat) (zip : outcome unit),
-    valid_layout c l -> (fuel_for l <= fuel)%nat ->
-    In ENCRYPTED_PACKAGE (all_names c) ->
+    valid_layout c l -> linked_tree c l -> (fuel_for l <= fuel)%nat ->
+    resolve c 0 [ENCRYPTED_PACKAGE] <> None ->
     ooxml_check_bytes fuel (cfb_write c l) = Err PasswordCfb.E_PASSWORD /\
     ooxml_new_bytes fuel (cfb_write c l) zip = Err PasswordCfb.E_PASSWORD.
 Proof. exact encrypted_ooxml_is_password_any_layout. Qed.
 
-(* the usual case: a stream of that name, any ciphertext *)
+(* the usual case: a stream of that name in the root storage, any ciphertext *)
 Theorem C20_encrypted_stream_is_password_any_layout :
   forall (c : container) (l : layout) (fuel : nat) (zip : outcome unit) (bytes : list N),
-    valid_layout c l -> (fuel_for l <= fuel)%nat ->
-    In (ENCRYPTED_PACKAGE, bytes) (c_streams c) ->
+    valid_layout c l -> linked_tree c l -> (fuel_for l <= fuel)%nat ->
+    spec_path c [ENCRYPTED_PACKAGE] = Some bytes ->
     ooxml_check_bytes fuel (cfb_write c l) = Err PasswordCfb.E_PASSWORD /\
     ooxml_new_bytes fuel (cfb_write c l) zip = Err PasswordCfb.E_PASSWORD.
 Proof. exact encrypted_stream_is_password_any_layout. Qed.
 
+(* no hierarchy written: an object of that name anywhere in the container *)
+Theorem C20_encrypted_ooxml_is_password_any_layout_flat :
+  forall (c : container) (l : layout) (fuel : nat) (zip : outcome unit),
+    valid_layout c l -> flat_root c l -> (fuel_for l <= fuel)%nat ->
+    In ENCRYPTED_PACKAGE (all_names c) ->
+    ooxml_check_bytes fuel (cfb_write c l) = Err PasswordCfb.E_PASSWORD /\
+    ooxml_new_bytes fuel (cfb_write c l) zip = Err PasswordCfb.E_PASSWORD.
+Proof. exact encrypted_ooxml_is_password_any_layout_flat. Qed.
+
 (* converse through the bytes: a compound file written from a container WITHOUT an object of that
-   name, in every valid layout, passes the check (the reader goes on to the zip) *)
+   name, in every valid layout, whatever its links, passes the check (the reader goes on to the zip) *)
 Theorem C20_no_false_positive_ooxml_any_layout :
   forall (c : container) (l : layout) (fuel : nat) (zip : outcome unit),
     valid_layout c l -> (fuel_for l <= fuel)%nat ->
@@ -100,22 +114,43 @@ Theorem C20_no_false_positive_ooxml_any_layout :
     ooxml_new_bytes fuel (cfb_write c l) zip = zip.
 Proof. exact no_encrypted_package_any_layout. Qed.
 
+(* "and only then": an EncryptedPackage that only an embedded object holds (not the root storage)
+   does not make the file count as password protected *)
+Theorem C20_nested_encrypted_package_not_password :
+  forall (c : container) (l : layout) (fuel : nat) (zip : outcome unit),
+    valid_layout c l -> linked_tree c l -> (fuel_for l <= fuel)%nat ->
+    resolve c 0 [ENCRYPTED_PACKAGE] = None ->
+    ooxml_check_bytes fuel (cfb_write c l) = Ok tt /\
+    ooxml_new_bytes fuel (cfb_write c l) zip = zip.
+Proof. exact nested_encrypted_package_not_password. Qed.
+
 (* the directory scan of PasswordCfb.v IS Cfb.has_directory *)
 Theorem C20_has_directory_is_cfb : forall (cf : cfb) (name : list N),
   Cfb.has_directory cf name = PasswordCfb.has_directory (directories cf) name.
 Proof. exact has_directory_is_cfb. Qed.
 
-(* over a parsed directory: an entry named EncryptedPackage at any index among any entries *)
+(* over a parsed directory without hierarchy (the root entry links to no child): an entry named
+   EncryptedPackage at any index among any entries *)
 Theorem C20_encrypted_ooxml_is_password :
   forall (before : list dirent) (d : dirent) (after_ : list dirent) (zip : outcome unit),
+    children (before ++ d :: after_) 0 = [] ->
     d_name d = ENCRYPTED_PACKAGE ->
     ooxml_check (Ok (before ++ d :: after_)) = Err PasswordCfb.E_PASSWORD /\
     ooxml_new (Ok (before ++ d :: after_)) zip = Err PasswordCfb.E_PASSWORD.
 Proof. exact encrypted_package_is_password. Qed.
 
+(* over a parsed directory with a hierarchy: an entry of that name among those the sibling tree of
+   the root entry links to, at any index *)
+Theorem C20_encrypted_package_of_root_is_password :
+  forall (dirs : list dirent) (i : N) (d : dirent) (zip : outcome unit),
+    In i (children dirs 0) -> nthN dirs i = Some d -> d_name d = ENCRYPTED_PACKAGE ->
+    ooxml_check (Ok dirs) = Err PasswordCfb.E_PASSWORD /\ ooxml_new (Ok dirs) zip = Err PasswordCfb.E_PASSWORD.
+Proof. exact encrypted_package_of_root_is_password. Qed.
+
 (* over the bytes of the directory chain: whole 128-byte entries, the EncryptedPackage entry as a
    writer lays it out (any bytes behind the name terminator, any other fields, any start and
-   size), at any index, every OTHER entry arbitrary bytes, both sector sizes *)
+   size), at any index, every OTHER entry arbitrary bytes, both sector sizes: Password as soon as
+   the array carries no hierarchy or the root's sibling tree reaches that entry *)
 Theorem C20_encrypted_ooxml_is_password_bytes :
   forall (before after_ : list (list N)) (pad mid : list N) (start size ss : N)
          (zip : outcome unit),
@@ -125,8 +160,9 @@ Theorem C20_encrypted_ooxml_is_password_bytes :
       parse_dirs
         (concat (before ++ dir_entry_bytes ENCRYPTED_PACKAGE pad mid start size :: after_)) ss
         = Ok ds /\
-      ooxml_check (Ok ds) = Err PasswordCfb.E_PASSWORD /\
-      ooxml_new (Ok ds) zip = Err PasswordCfb.E_PASSWORD.
+      (children ds 0 = [] \/ In (N.of_nat (length before)) (children ds 0) ->
+       ooxml_check (Ok ds) = Err PasswordCfb.E_PASSWORD /\
+       ooxml_new (Ok ds) zip = Err PasswordCfb.E_PASSWORD).
 Proof. exact encrypted_ooxml_is_password. Qed.
 
 (* converse, byte level: a file that starts with the zip local-header signature is rejected by
@@ -229,12 +265,19 @@ Check C20_filepass_is_password :
     = Err Password.E_PASSWORD.
 Check C20_encrypted_ooxml_is_password_any_layout :
   forall (c : container) (l : layout) (fuel : nat) (zip : outcome unit),
-    valid_layout c l -> (fuel_for l <= fuel)%nat ->
-    In ENCRYPTED_PACKAGE (all_names c) ->
+    valid_layout c l -> linked_tree c l -> (fuel_for l <= fuel)%nat ->
+    resolve c 0 [ENCRYPTED_PACKAGE] <> None ->
     ooxml_check_bytes fuel (cfb_write c l) = Err PasswordCfb.E_PASSWORD /\
     ooxml_new_bytes fuel (cfb_write c l) zip = Err PasswordCfb.E_PASSWORD.
+Check C20_nested_encrypted_package_not_password :
+  forall (c : container) (l : layout) (fuel : nat) (zip : outcome unit),
+    valid_layout c l -> linked_tree c l -> (fuel_for l <= fuel)%nat ->
+    resolve c 0 [ENCRYPTED_PACKAGE] = None ->
+    ooxml_check_bytes fuel (cfb_write c l) = Ok tt /\
+    ooxml_new_bytes fuel (cfb_write c l) zip = zip.
 Check C20_encrypted_ooxml_is_password :
   forall (before : list dirent) (d : dirent) (after_ : list dirent) (zip : outcome unit),
+    children (before ++ d :: after_) 0 = [] ->
     d_name d = ENCRYPTED_PACKAGE ->
     ooxml_check (Ok (before ++ d :: after_)) = Err PasswordCfb.E_PASSWORD /\
     ooxml_new (Ok (before ++ d :: after_)) zip = Err PasswordCfb.E_PASSWORD.
@@ -317,11 +360,43 @@ Definition ex_plain (ss : N) : container :=
   {| c_ss := ss; c_storages := [[6;68;97;116;97;83;112;97;99;101;115]];
      c_streams := [(ENCRYPTION_INFO, ex_info); ([87;111;114;107;98;111;111;107], ex_pkg)]; c_parents := [] |}.
 
+(* ex_l / ex_l4 write no links (the flat scan); ex_lt: the same 4096-byte layout with a legal MS-CFB
+   tree (longer names sort later: DataSpaces, 11 units, on top, EncryptionInfo, 14, to its right,
+   EncryptedPackage, 16, to the right of that) *)
+Definition ex_lt : layout :=
+  {| l_nsect := 6; l_fat_ids := [0]; l_difat_ids := []; l_dir_ids := [1]; l_minifat_ids := [2];
+     l_root_ids := [3]; l_nmini := 2;
+     l_chains := [[0; 1]; [4; 5]];
+     l_slots := [1; 2; 3]; l_pad := 0; l_size_hi := 0; l_empty_start := ENDOFCHAIN;
+     l_links := [(FREESECT, FREESECT, 1); (FREESECT, 2, FREESECT);
+                 (FREESECT, 3, FREESECT); (FREESECT, FREESECT, FREESECT)] |}.
+(* the package inside the storage (an embedded encrypted document), not in the root *)
+Definition ex_nested : container :=
+  {| c_ss := 4096; c_storages := [[6;68;97;116;97;83;112;97;99;101;115]];
+     c_streams := [(ENCRYPTION_INFO, ex_info); (ENCRYPTED_PACKAGE, ex_pkg)]; c_parents := [0; 0; 1] |}.
+Definition ex_lt_nested : layout :=
+  {| l_nsect := 6; l_fat_ids := [0]; l_difat_ids := []; l_dir_ids := [1]; l_minifat_ids := [2];
+     l_root_ids := [3]; l_nmini := 2;
+     l_chains := [[0; 1]; [4; 5]];
+     l_slots := [3; 2; 1]; l_pad := 0; l_size_hi := 0; l_empty_start := ENDOFCHAIN;
+     l_links := [(FREESECT, FREESECT, 3); (FREESECT, 2, 1);
+                 (FREESECT, FREESECT, FREESECT); (FREESECT, FREESECT, FREESECT)] |}.
+
 Example C20_encrypted_ooxml_is_password_any_layout_nonvacuous :
   valid_layout (ex_c 512) ex_l /\ valid_layout (ex_c 4096) ex_l4 /\
+  flat_root (ex_c 512) ex_l /\ flat_root (ex_c 4096) ex_l4 /\
   In ENCRYPTED_PACKAGE (all_names (ex_c 512)) /\
   ooxml_check_bytes (fuel_for ex_l) (cfb_write (ex_c 512) ex_l) = Err PasswordCfb.E_PASSWORD /\
-  ooxml_check_bytes (fuel_for ex_l4) (cfb_write (ex_c 4096) ex_l4) = Err PasswordCfb.E_PASSWORD.
+  ooxml_check_bytes (fuel_for ex_l4) (cfb_write (ex_c 4096) ex_l4) = Err PasswordCfb.E_PASSWORD /\
+  valid_layout (ex_c 4096) ex_lt /\ legal_tree (ex_c 4096) ex_lt /\ linked_tree (ex_c 4096) ex_lt /\
+  resolve (ex_c 4096) 0 [ENCRYPTED_PACKAGE] = Some 3 /\
+  ooxml_check_bytes (fuel_for ex_lt) (cfb_write (ex_c 4096) ex_lt) = Err PasswordCfb.E_PASSWORD.
+Proof. repeat split; vm_compute; try reflexivity. right; right; left; reflexivity. Qed.
+
+Example C20_nested_encrypted_package_not_password_nonvacuous :
+  valid_layout ex_nested ex_lt_nested /\ legal_tree ex_nested ex_lt_nested /\
+  In ENCRYPTED_PACKAGE (all_names ex_nested) /\ resolve ex_nested 0 [ENCRYPTED_PACKAGE] = None /\
+  ooxml_check_bytes (fuel_for ex_lt_nested) (cfb_write ex_nested ex_lt_nested) = Ok tt.
 Proof. repeat split; vm_compute; try reflexivity. right; right; left; reflexivity. Qed.
 
 Example C20_no_false_positive_ooxml_any_layout_nonvacuous :
@@ -377,6 +452,10 @@ Print Assumptions C20_no_false_positive_xls_real.
 Print Assumptions C20_encrypted_ooxml_is_password_any_layout.
 Print Assumptions C20_encrypted_stream_is_password_any_layout.
 Print Assumptions C20_no_false_positive_ooxml_any_layout.
+Print Assumptions C20_encrypted_ooxml_is_password_any_layout_flat.
+Print Assumptions C20_nested_encrypted_package_not_password.
+Print Assumptions C20_encrypted_package_of_root_is_password.
+Print Assumptions C20_nested_encrypted_package_not_password_nonvacuous.
 Print Assumptions C20_has_directory_is_cfb.
 Print Assumptions C20_encrypted_ooxml_is_password.
 Print Assumptions C20_encrypted_ooxml_is_password_bytes.
